@@ -471,6 +471,13 @@ theorem syntax_errors_unfold (known : List Char → Bool) (t : List Char) :
       (stmts t).flatMap (stmtErrs splitArgs known (synErrs splitArgs known) t) ++ openErr t :=
   synErrs_unfold_gen splitArgs known (fun _ _ h => splitArgs_length h) t
 
+/-- **The two specifications agree**: the declarative error list is empty exactly for the templates of the grammar
+    `WellFormed` – a statement about the specs alone (any set of known names, no `Compile`), so
+    `compile_ok_iff_wellformed` is the "= []" instance of `syntax_errors_exact`. -/
+theorem syntax_errors_nil_iff_wellformed (known : List Char → Bool) (t : List Char) :
+    synErrs splitArgs known t = [] ↔ WellFormed splitArgs known t :=
+  synErrs_nil_iff_wf splitArgs known (fun _ _ h => splitArgs_length h) (t.length + 1) t (by omega)
+
 /-- **What the positions are.**  The statements `stmts t` of the error spec are the statements of the grammar
     (`bodies`, same order); each starts at a rune that is `{` and ends at a later rune that is `}`; they are listed
     left to right and do not overlap; the open statement (if any) starts at a `{` too, and there is one iff the
